@@ -268,7 +268,7 @@ func (ex *Exec) usePrelude(name string) error {
 func NewExec(p *Prog, fi *FuncInfo) *Exec {
 	ex := &Exec{P: p, U: NewUniverse(), F: fi, info: fi.Pkg.TypesInfo, names: map[string]*types.Var{}, boxed: map[*types.Var]bool{},
 		params: map[string]Term{}, loopIdxByOrd: map[int]Term{}, notesSet: map[string]bool{}, safeCount: map[string]int{}, callOrd: map[string]int{},
-		preludeSyms: map[string]bool{}, preludeConsts: map[string]*Sort{}, safetyOn: true}
+		preludeSyms: map[string]bool{}, preludeConsts: map[string]*Sort{}, safetyOn: true, closures: map[*types.Var]*closure{}}
 	ex.U.ifaceImpl = p.Implementations
 	ex.eventFuns()
 	return ex
@@ -305,7 +305,9 @@ func (ex *Exec) findBoxed(body ast.Node) {
 					lhs = []ast.Expr{s.X}
 				}
 				for _, l := range lhs {
-					if v, _ := rootVar(ex.info, l); v != nil && !declared[v] && !isPkgLevel(v) {
+					// only a direct assignment to the captured variable (or one of its fields) needs the heap;
+					// a store through a captured pointer / map leaves the variable itself unchanged
+					if v, crossed := rootVar(ex.info, l); v != nil && !crossed && !declared[v] && !isPkgLevel(v) {
 						ex.boxed[v] = true
 					}
 				}
